@@ -19,3 +19,11 @@ pub fn report<C: serde::Serialize>(property: &str, subcheck: &str, case: &C, fai
     let _ = out.flush();
     std::process::abort();
 }
+
+/// libfuzzer-sys installs a panic hook that aborts the process, which would turn every *expected* panic (the oracles
+/// compare "panics exactly when the model panics" with catch_unwind) into a crash. Replace it once: panics unwind again;
+/// one that escapes the target is still caught by libfuzzer-sys' own catch_unwind around the target and reported.
+pub fn quiet_panics() {
+    static ONCE: std::sync::Once = std::sync::Once::new();
+    ONCE.call_once(|| std::panic::set_hook(Box::new(|_| {})));
+}
